@@ -146,6 +146,10 @@ def race_work(P, name):
             if r == z3.unsat:
                 P.obligation(oname, "holds", symbolic=True, accesses=len(logs[0]))
                 continue
+            # prefer a witness the replay can allocate: small sizes, a small thread pool
+            small = [S[n] <= 64 for n in S] + [z3.Int("num_threads") <= 16]
+            if ctx.check(cond, *small) != z3.sat:
+                ctx.check(cond)
             m = ctx.solver.model()
             V = {n: m.eval(S[n], model_completion=True).as_long() for n in S}
             pa = [m.eval(t, model_completion=True).as_long() for t in {a[4] for a in logs[0]}]
@@ -156,7 +160,9 @@ def race_work(P, name):
                     iv, vv = m.eval(terms[0], model_completion=True), m.eval(vt, model_completion=True)
                     if z3.is_int_value(iv) and z3.is_int_value(vv) and 0 <= iv.as_long() < 4096:
                         ld.setdefault(an, {})[str(iv.as_long())] = vv.as_long()
-            params = dict(kernel=name, sizes=V, it_a=pa[0] if pa else 0, it_b=pb[0] if pb else 1, array=arr, loads=ld)
+            nthr = m.eval(z3.Int("num_threads"), model_completion=True)
+            params = dict(kernel=name, sizes=V, it_a=pa[0] if pa else 0, it_b=pb[0] if pb else 1, array=arr, loads=ld,
+                          num_threads=nthr.as_long() if z3.is_int_value(nthr) and nthr.as_long() >= 1 else None)
             src = ("import sys, json\nfrom symx.concrete import c19\n"
                    f"sys.exit(c19.main(json.loads({json.dumps(json.dumps(params))})))\n")
             found.append(params)
